@@ -10,6 +10,7 @@
 package main
 
 import (
+	"bytes"
 	"errors"
 	"flag"
 	"fmt"
@@ -43,6 +44,15 @@ func session() *packet.Session {
 }
 
 func hx(b []byte) string { return lib.Hex(b) }
+
+// unicastMAC: an Ethernet source Parse accepts (group bit clear): all-zero, our own, the IPv4 router's, device-like
+func unicastMAC(rng *lib.Rand) []byte {
+	for {
+		if m := specialMAC(rng); m[0]&1 == 0 && !bytes.Equal(m, lib.HostMAC) {
+			return m
+		}
+	}
+}
 func b01(b bool) string {
 	if b {
 		return "1"
@@ -118,15 +128,23 @@ func (x *rxBuf) poison() {
 }
 
 // deliver pushes one ICMPv6 message through Parse + ProcessPacket with the counter preset.
-func deliver(s *packet.Session, h *icmp_spoofer.Handler6, rx *rxBuf, counter int, ethSrc net.HardwareAddr, src netip.Addr, msg []byte, hostKnown bool) (ret string) {
+func deliver(s *packet.Session, h *icmp_spoofer.Handler6, rx *rxBuf, counter int, ethSrc net.HardwareAddr, src netip.Addr, msg []byte, hostKnown bool) string {
+	ret, _ := deliverHK(s, h, rx, counter, ethSrc, src, msg, hostKnown)
+	return ret
+}
+
+// deliverHK also reports whether ProcessPacket saw a host (Parse creates none for frames from our own
+// MAC, for non link-local / non global sources, and for global sources behind the IPv4 router's MAC).
+func deliverHK(s *packet.Session, h *icmp_spoofer.Handler6, rx *rxBuf, counter int, ethSrc net.HardwareAddr, src netip.Addr, msg []byte, hostKnown bool) (ret string, hk bool) {
 	defer rx.poison()
 	f, err := s.Parse(rx.load(raFrame(ethSrc, src, msg)))
 	if err != nil {
-		return "parse:" + errName(err)
+		return "parse:" + errName(err), false
 	}
 	if !hostKnown {
 		f.Host = nil
 	}
+	hk = f.Host != nil
 	raMu.Lock()
 	defer raMu.Unlock()
 	defer func() {
@@ -135,7 +153,7 @@ func deliver(s *packet.Session, h *icmp_spoofer.Handler6, rx *rxBuf, counter int
 		}
 	}()
 	icmp_spoofer.VerifSetRepeat(counter)
-	return errName(h.ProcessPacket(f))
+	return errName(h.ProcessPacket(f)), hk
 }
 
 func secs(d time.Duration) string { return fmt.Sprint(int64(d / time.Second)) }
@@ -314,6 +332,32 @@ func obsV4(msg []byte) (ret string) {
 	return errName(h.ProcessPacket(f))
 }
 
+// runRA2: a NEW entry by msg1 (Ethernet source eth1), then an UPDATE by msg2 (Ethernet source eth2), same IPv6
+// source, both processed; the record after the second advertisement.
+func runRA2(eth1, msg1, eth2, msg2 []byte) (ret string, r icmp_spoofer.Router, found bool) {
+	s := session()
+	h, _ := icmp_spoofer.New6(s)
+	rx := newRxBuf()
+	deliver(s, h, rx, 3, eth1, srcLLA, msg1, true)
+	ret = deliver(s, h, rx, 3, eth2, srcLLA, msg2, true)
+	if ret != "ok" {
+		return ret, r, false
+	}
+	r = h.FindRouter(srcLLA)
+	return ret, r, r.Addr.IP.IsValid()
+}
+
+func obsRA2(proj string, eth1, msg1, eth2, msg2 []byte) string {
+	ret, r, found := runRA2(eth1, msg1, eth2, msg2)
+	if ret != "ok" {
+		return ret
+	}
+	if !found {
+		return "none"
+	}
+	return project(proj, r)
+}
+
 func obsRA(proj string, msg []byte) string {
 	ret, r, found := runRA(msg)
 	if ret != "ok" {
@@ -337,6 +381,9 @@ func main() {
 	}
 	rng := r.Rand()
 	r.Register("ra", func(a []string) string { return obsRA(a[0], lib.UnHex(a[1])) })
+	r.Register("ra2", func(a []string) string {
+		return obsRA2(a[0], lib.UnHex(a[1]), lib.UnHex(a[2]), lib.UnHex(a[3]), lib.UnHex(a[4]))
+	})
 	r.Register("v4", func(a []string) string { return obsV4(lib.UnHex(a[0])) })
 	registerHunt(r)
 	if r.Replayed() {
@@ -388,6 +435,50 @@ func main() {
 	for i := 0; i < n; i++ {
 		class, msg := genRA(rng)
 		emit(class, msg)
+	}
+	// UPDATE of a known router: pairs (creating RA, updating RA), Ethernet sources from the special pool
+	n2 := 250
+	if r.Thorough() {
+		n2 = 4000
+	}
+	pairs := [][4][]byte{}
+	d := directedRAs()
+	zero := []byte{0, 0, 0, 0, 0, 0}
+	pairs = append(pairs,
+		[4][]byte{lib.RouterMAC, d[1], lib.RouterMAC, d[0]},  // SLLA then none: MAC stays, SLLA field follows the update
+		[4][]byte{lib.RouterMAC, d[0], lib.RouterMAC, d[1]},  // none then SLLA
+		[4][]byte{lib.RouterMAC, d[2], lib.RouterMAC, d[0]},  // MTU then no MTU option: MTU back to 0
+		[4][]byte{zero, d[0], lib.RouterMAC, d[0]},           // created from an all-zero Ethernet source
+		[4][]byte{lib.RouterMAC, d[0], zero, d[3]},
+	)
+	for i := 0; i < n2; i++ {
+		_, m1 := genRA(rng)
+		_, m2 := genRA(rng)
+		if rng.Chance(30) {
+			m1 = d[rng.Intn(len(d))]
+		}
+		pairs = append(pairs, [4][]byte{unicastMAC(rng), m1, unicastMAC(rng), m2})
+	}
+	for _, pr := range pairs {
+		if hasXN(pr[1]) || hasXN(pr[3]) {
+			continue
+		}
+		ret, rt, found := runRA2(pr[0], pr[1], pr[2], pr[3])
+		for _, p := range projs {
+			obs := ret
+			if ret == "ok" {
+				if found {
+					obs = project(p, rt)
+				} else {
+					obs = "none"
+				}
+			}
+			r.Case("ra2", []string{p, hx(pr[0]), hx(pr[1]), hx(pr[2]), hx(pr[3])}, obs)
+		}
+		r.Stat("class.ra2", 1)
+		if ret == "ok" && found {
+			oracleRAfrom(r, pr[3], rt, nil, "update")
+		}
 	}
 	huntScenarios(r, rng)
 	_ = sort.Strings
